@@ -141,17 +141,51 @@ def Lexeme.Valid (o : Oracles) : Lexeme → Prop
   | .kw k _ => (kwWord k).isSome
   | .lit _ _ => True
   | .ident w =>
-    (∃ c r, w = c :: r ∧ (o.info c).alpha = true ∧ ∀ x ∈ r, isWordCont o x = true) ∧
+    (match w with
+     | [] => False
+     | c :: r => (o.info c).alpha = true ∧ ∀ x ∈ r, isWordCont o x = true) ∧
     keywordOf (lower o w) = none ∧ lower o w ≠ wNull ∧ lower o w ≠ wTrue ∧ lower o w ≠ wFalse
   | .int ds => ds ≠ [] ∧ (∀ c ∈ ds, isDigitA c = true) ∧ (Lit.parseI64 (ds.map Char.toNat)).isSome
   | .float a b =>
-    (∃ c r, a = c :: r ∧ (o.info c).alpha = false) ∧ (∀ c ∈ a ++ b, (o.info c).numeric = true) ∧
-    ∃ n, o.fparse (a ++ '.' :: b) = .bits n
+    (match a with
+     | [] => False
+     | c :: _ => (o.info c).alpha = false) ∧ (∀ c ∈ a ++ b, (o.info c).numeric = true) ∧
+    (match o.fparse (a ++ '.' :: b) with
+     | .bits _ => True
+     | _ => False)
   | .str body => wellEscaped body = true
   | .op1 c => isOpChar o c = true
   | .op2 a b => (a, b) ∈ twoCharOps ∧ (a, b) ≠ ('-', '-')
   | .rarrow => True
   | .punct _ => True
+
+instance instDecidableValid (o : Oracles) : (l : Lexeme) → Decidable (l.Valid o)
+  | .kw k _ => inferInstanceAs (Decidable ((kwWord k).isSome = true))
+  | .lit _ _ => isTrue trivial
+  | .ident [] => isFalse (fun h => h.1)
+  | .ident (c :: r) => inferInstanceAs (Decidable (((o.info c).alpha = true ∧ ∀ x ∈ r, isWordCont o x = true) ∧
+      keywordOf (lower o (c :: r)) = none ∧ lower o (c :: r) ≠ wNull ∧ lower o (c :: r) ≠ wTrue ∧ lower o (c :: r) ≠ wFalse))
+  | .int ds => inferInstanceAs (Decidable (ds ≠ [] ∧ (∀ c ∈ ds, isDigitA c = true) ∧ (Lit.parseI64 (ds.map Char.toNat)).isSome))
+  | .float [] _ => isFalse (fun h => h.1)
+  | .float (c :: r) b =>
+    match hf : o.fparse ((c :: r) ++ '.' :: b) with
+    | .bits _ =>
+      if h : (o.info c).alpha = false ∧ ∀ x ∈ (c :: r) ++ b, (o.info x).numeric = true then
+        isTrue ⟨h.1, h.2, by simp only [hf]⟩
+      else isFalse (fun h' => h ⟨h'.1, h'.2.1⟩)
+    | .err => isFalse (fun h' => by have := h'.2.2; simp only [hf] at this)
+    | .missing => isFalse (fun h' => by have := h'.2.2; simp only [hf] at this)
+  | .str body => inferInstanceAs (Decidable (wellEscaped body = true))
+  | .op1 c => inferInstanceAs (Decidable (isOpChar o c = true))
+  | .op2 a b => inferInstanceAs (Decidable ((a, b) ∈ twoCharOps ∧ (a, b) ≠ ('-', '-')))
+  | .rarrow => isTrue trivial
+  | .punct _ => isTrue trivial
+
+instance (o : Oracles) : (i : GapItem) → Decidable (i.Ok o)
+  | .ws c => inferInstanceAs (Decidable (isSpace o c = true))
+  | .comment b => inferInstanceAs (Decidable ('\n' ∉ b))
+
+instance (o : Oracles) (g : Gap) : Decidable (g.Ok o) := inferInstanceAs (Decidable (∀ i ∈ g, i.Ok o))
 
 /-- what the end of a lexeme leaves open -/
 inductive EndKind where
@@ -189,9 +223,28 @@ def firstChar (l : Lexeme) : Char := l.text.headD ' '
 def SepOk (o : Oracles) (k : EndKind) (g : Gap) (l : Lexeme) : Prop :=
   (g = [] → AdjOk o k (firstChar l)) ∧ GapStartOk k g
 
+instance (o : Oracles) : (k : EndKind) → (c : Char) → Decidable (AdjOk o k c)
+  | .other, _ => isTrue trivial
+  | .word, c => inferInstanceAs (Decidable (isWordCont o c = false))
+  | .int, c => inferInstanceAs (Decidable ((o.info c).numeric = false ∧ c ≠ '.'))
+  | .float, c => inferInstanceAs (Decidable ((o.info c).numeric = false ∧ c ≠ '.'))
+  | .op a, c => inferInstanceAs (Decidable (¬ (a = '=' ∧ c = '>') ∧ isTwoChar a c = false))
+
+instance (k : EndKind) (g : Gap) : Decidable (GapStartOk k g) :=
+  inferInstanceAs (Decidable (k = .op '-' → g.startsWithComment = false))
+
+instance (o : Oracles) (k : EndKind) (g : Gap) (l : Lexeme) : Decidable (SepOk o k g l) :=
+  inferInstanceAs (Decidable ((g = [] → AdjOk o k (firstChar l)) ∧ GapStartOk k g))
+
 def ItemsOk (o : Oracles) : EndKind → List (Gap × Lexeme) → Prop
   | _, [] => True
   | k, (g, l) :: rest => g.Ok o ∧ l.Valid o ∧ SepOk o k g l ∧ ItemsOk o l.endKind rest
+
+instance instDecidableItemsOk (o : Oracles) : (k : EndKind) → (items : List (Gap × Lexeme)) → Decidable (ItemsOk o k items)
+  | _, [] => isTrue trivial
+  | k, (g, l) :: rest =>
+    have := instDecidableItemsOk o l.endKind rest
+    inferInstanceAs (Decidable (g.Ok o ∧ l.Valid o ∧ SepOk o k g l ∧ ItemsOk o l.endKind rest))
 
 def lastKind : EndKind → List (Gap × Lexeme) → EndKind
   | k, [] => k
@@ -217,7 +270,27 @@ def Layout.Ok (o : Oracles) (L : Layout) : Prop :=
    | none => True
    | some b => '\n' ∉ b ∧ (L.final = [] → lastKind .other L.items ≠ .op '-'))
 
+instance (o : Oracles) (L : Layout) : Decidable (L.Ok o) :=
+  match ht : L.tail with
+  | none =>
+    if h : ItemsOk o .other L.items ∧ L.final.Ok o ∧ GapStartOk (lastKind .other L.items) L.final then
+      isTrue ⟨h.1, h.2.1, h.2.2, by simp only [ht]⟩
+    else isFalse (fun h' => h ⟨h'.1, h'.2.1, h'.2.2.1⟩)
+  | some b =>
+    if h : ItemsOk o .other L.items ∧ L.final.Ok o ∧ GapStartOk (lastKind .other L.items) L.final ∧
+        ('\n' ∉ b ∧ (L.final = [] → lastKind .other L.items ≠ .op '-')) then
+      isTrue ⟨h.1, h.2.1, h.2.2.1, by simp only [ht]; exact h.2.2.2⟩
+    else isFalse (fun h' => h ⟨h'.1, h'.2.1, h'.2.2.1, by have := h'.2.2.2; simp only [ht] at this; exact this⟩)
+
 def Layout.lexemes (L : Layout) : List Lexeme := L.items.map (·.2)
+
+/-- replace every comment of a gap by a line break -/
+def stripGap (g : Gap) : Gap :=
+  g.map (fun i => match i with | .comment _ => .ws '\n' | i => i)
+
+/-- replace every comment by a line break, drop an unterminated comment at the end -/
+def stripComments (L : Layout) : Layout :=
+  { items := L.items.map (fun x => (stripGap x.1, x.2)), final := stripGap L.final, tail := none }
 
 /-! ### the tokens of a lexeme sequence -/
 
